@@ -160,7 +160,13 @@ fn exec(sc: &Scenario) -> Report {
         let len = if sc.c("len_known") == 1 { Some(sc.c("len0")) } else { None };
         let tick_kind = sc.c("tick_kind");
         // (one bar in four is a member of a MultiProgress: the same values must come out)
-        let mp = (sc.c("in_multi") == 1).then(|| indicatif::MultiProgress::with_draw_target(ProgressDrawTarget::term_like(Box::new(term.clone()))));
+        // (in_multi 2: the MultiProgress has no terminal during the history and gets it before
+        // the frozen instant - custom keys are ticked and reset with the bar all the same)
+        let mp = match sc.c("in_multi") {
+            1 => Some(indicatif::MultiProgress::with_draw_target(ProgressDrawTarget::term_like(Box::new(term.clone())))),
+            2 => Some(indicatif::MultiProgress::with_draw_target(ProgressDrawTarget::hidden())),
+            _ => None,
+        };
         let pb = match &mp {
             Some(mp) => mp.add(match len {
                 Some(l) => ProgressBar::new(l),
@@ -294,6 +300,11 @@ fn exec(sc: &Scenario) -> Report {
                 format!("the bar was reset {resets} times, the custom key's tracker {} times", obs.lock().unwrap().resets),
             );
             return r;
+        }
+        if sc.c("in_multi") == 2 {
+            if let Some(mp) = &mp {
+                mp.set_draw_target(ProgressDrawTarget::term_like(Box::new(term.clone())));
+            }
         }
         // freeze: strictly after creation/reset so that the rate is defined
         sched::advance_quiet(sc.c("final_gap").max(1));
@@ -506,7 +517,7 @@ impl Check for C11 {
         "C11"
     }
     fn rule_text(&self) -> String {
-        "A random history (inc/set_position/update with positions and lengths including 0, len < pos, unknown length, u64::MAX and neighbours; ticks; messages and prefixes; reset/reset_eta/reset_elapsed; the style taken from the bar with style(), given another template (with or without the custom key, once or twice) and put back; every finish variant; clock gaps from 1 ms to hours, >= 1 ms between position calls so that the tick count is determined) is followed by a frozen virtual instant at which, for each of 25 documented keys (spinner, prefix, msg, pos, human_pos, len, human_len, percent, percent_precise, bytes family, elapsed*, per_sec, *_bytes_per_sec, eta*, duration*), a template <{key}> is set, a forced draw is captured from the simulated terminal and compared with the getter value pushed through the public formatter the docs name (percent: within rounding of 100*pos/len clamped; spinner: style.get_tick_str(tick count) / final tick string once finished; missing length renders as the position; the tick strings come from tick_strings with 2..11 entries, tick_chars, or the defaults, and the expected one is picked from the list the style was built with, not through the library's getter). Then three templates with 2..5 keys each (<{k1}|{k2}|..>) are drawn at the same instant and every field must show its own value in template order. One bar in four is a member of a MultiProgress; the bar is made by with_draw_target, by new()/no_length() or by new_spinner() followed by set_draw_target. The ProgressState handed to a custom key at each draw must agree with the getters, the tracker must be ticked with the bar (in one run out of four also by a steady ticker left running for six intervals) and reset exactly as often as the bar, with the bar's state after the reset. Non-trivial: history of >= 2 calls. Distinct = distinct scenario hash.".into()
+        "A random history (inc/set_position/update with positions and lengths including 0, len < pos, unknown length, u64::MAX and neighbours; ticks; messages and prefixes; reset/reset_eta/reset_elapsed; the style taken from the bar with style(), given another template (with or without the custom key, once or twice) and put back; every finish variant; clock gaps from 1 ms to hours, >= 1 ms between position calls so that the tick count is determined) is followed by a frozen virtual instant at which, for each of 25 documented keys (spinner, prefix, msg, pos, human_pos, len, human_len, percent, percent_precise, bytes family, elapsed*, per_sec, *_bytes_per_sec, eta*, duration*), a template <{key}> is set, a forced draw is captured from the simulated terminal and compared with the getter value pushed through the public formatter the docs name (percent: within rounding of 100*pos/len clamped; spinner: style.get_tick_str(tick count) / final tick string once finished; missing length renders as the position; the tick strings come from tick_strings with 2..11 entries, tick_chars, or the defaults, and the expected one is picked from the list the style was built with, not through the library's getter). Then three templates with 2..5 keys each (<{k1}|{k2}|..>) are drawn at the same instant and every field must show its own value in template order. One bar in four is a member of a MultiProgress (which, in a third of these runs, has no terminal during the history and gets it before the frozen instant); the bar is made by with_draw_target, by new()/no_length() or by new_spinner() followed by set_draw_target. The ProgressState handed to a custom key at each draw must agree with the getters, the tracker must be ticked with the bar (in one run out of four also by a steady ticker left running for six intervals) and reset exactly as often as the bar, with the bar's state after the reset. Non-trivial: history of >= 2 calls. Distinct = distinct scenario hash.".into()
     }
     fn assumptions(&self) -> Vec<String> {
         vec![
@@ -526,7 +537,7 @@ impl Check for C11 {
         sc.set("len0", boundary_u64(rng));
         sc.set("two_line", rng.chance(1, 4) as u64);
         sc.set("tick_kind", rng.below(8));
-        sc.set("in_multi", rng.chance(1, 4) as u64);
+        sc.set("in_multi", *rng.pick(&[0, 0, 0, 0, 0, 1, 1, 2]));
         sc.set("ctor", rng.below(3));
         sc.set("ticker_phase", rng.chance(1, 4) as u64);
         sc.set("on_finish", rng.below(5));
